@@ -543,8 +543,16 @@ def t4(ctx):
                 enter_paths = [p_ for p_ in allp if is_enter_path(p_)]
                 facts['enter_paths'] = len(enter_paths)
                 for p_ in enter_paths:
+                    def is_leave(a_):
+                        t_ = squash(sx.render(a_))
+                        if 'Leave' in t_:
+                            return True
+                        if sx.is_path(a_):
+                            return any('Leave' in squash(sx.render(st_['init'])) for st_ in sx.walk(body)
+                                       if st_.get('k') == 'let' and 'init' in st_ and a_['p'] in sx.pat_idents(st_['pat']))
+                        return False
                     leave = [n for n in p_.calls if n.get('k') == 'mcall' and n['m'] == 'push' and squash(sx.render(n['recv'])) == 'self.next.0'
-                             and 'Leave' in squash(sx.render(n['args'][0]))]
+                             and is_leave(n['args'][0])]
                     if not leave:
                         conds_ = [('' if pol else 'not ') + squash(sx.render(c_))[:40] for c_, pol in p_.conds if c_.get('k') not in ('arm',)][-2:]
                         return 'wrong', 'on a path on which the popped item is an Enter (%s) no Leave is pushed: that node gets an Enter without a matching Leave' % ' and '.join(conds_), facts
